@@ -166,8 +166,8 @@ def build(ctx, case):
                 ("divide", base, "%.10g" % T, False, 1, r.choice([2, 10, 100, 1e-3, 1e-4]))]
     # the solution holds plenty of every formula element: a reactant that grows takes its formula out of the solution
     sol = "SOLUTION 1\n temp 25\n pH 7 charge\n units mol/kgw\n Na 0.3\n K 0.3\n Li 0.3\n Cl 0.45\n Br 0.45\n"
-    punch = "SELECTED_OUTPUT 1\n -reset false\nUSER_PUNCH 1\n -headings time " + " ".join("kin_" + nm for nm in names) + " " + " ".join("tm_" + e for e in EL) + "\n"
-    punch += " 10 PUNCH TOTAL_TIME, " + ", ".join('KIN("%s")' % nm for nm in names) + "\n 20 PUNCH " + ", ".join('TOTMOLE("%s")' % e for e in EL) + "\n"
+    punch = "SELECTED_OUTPUT 1\n -reset false\nUSER_PUNCH 1\n -headings time " + " ".join("kin_" + nm for nm in names) + " " + " ".join("tm_" + e for e in EL) + " step\n"
+    punch += " 10 PUNCH TOTAL_TIME, " + ", ".join('KIN("%s")' % nm for nm in names) + "\n 20 PUNCH " + ", ".join('TOTMOLE("%s")' % e for e in EL) + "\n 30 PUNCH STEP_NO\n"
     runs = []
     for var in variants:
         vname, ig, st, inc, nsteps = var[:5]
@@ -178,6 +178,14 @@ def build(ctx, case):
     adv = ("KNOBS\n -convergence_tolerance 1e-12\n" + RATES + punch + "SOLUTION 0-3\n temp 25\n pH 7 charge\n units mol/kgw\n Na 0.3\n K 0.3\n Li 0.3\n Cl 0.45\n Br 0.45\nEND\nINCREMENTAL_REACTIONS false\n"
            + kin_block(law, names, m0, p, tol, base, "1").replace("KINETICS 1", "KINETICS 1-3") + "ADVECTION\n -cells 3\n -shifts %d\n -time_step %.10g\n -punch_cells 1-3\n -punch_frequency 1\nEND\n" % (sh, T / sh))
     runs.append(("advection", adv, base, sh, False))
+    # and inside TRANSPORT time steps: pure advection (no dispersion, no diffusion), forward or back, so that every cell still integrates its own closed-form law;
+    # the end cells are integrated in two halves around the shift
+    sh2 = r.randint(2, 5)
+    flow = r.choice(["forward", "back"])
+    trn = ("KNOBS\n -convergence_tolerance 1e-12\n" + RATES + punch + "SOLUTION 0-4\n temp 25\n pH 7 charge\n units mol/kgw\n Na 0.3\n K 0.3\n Li 0.3\n Cl 0.45\n Br 0.45\nEND\nINCREMENTAL_REACTIONS false\n"
+           + kin_block(law, names, m0, p, tol, base, "1").replace("KINETICS 1", "KINETICS 1-3")
+           + "TRANSPORT\n -cells 3\n -shifts %d\n -time_step %.10g\n -flow_direction %s\n -boundary_conditions flux flux\n -lengths 1\n -dispersivities 0\n -diffusion_coefficient 0\n -punch_cells 1-3\n -punch_frequency 1\nEND\n" % (sh2, T / sh2, flow))
+    runs.append(("transport", trn, base, sh2, False))
     return dict(law=law, tol=tol, names=names, m0=m0, p=p, T=T, runs=runs, base=base)
 
 
@@ -222,6 +230,11 @@ def run_case(ctx, case):
         prev_t, prev_y = 0.0, [m0[nm] for nm in names]
         for d in krows:
             t = d["time"]
+            if vname == "transport":
+                # TOTAL_TIME of an end cell is read in the middle of its split step; the amount reacted belongs to whole shifts
+                t = d.get("step", 0) * T / nsteps
+                if t <= 0:
+                    continue
             ex = exact(law, p, m0, t)
             # did the engine take this (sub)step as one accepted Runge-Kutta step?  (batch variants only: their rows follow each other in time)
             whole = False
@@ -249,7 +262,7 @@ def run_case(ctx, case):
                 break
             prev_t, prev_y = t, [d["kin_" + nm] for nm in names]
         last = [d for d in krows if abs(d["time"] - T) <= 1e-9 * T]
-        if last and vname != "advection":
+        if last and vname not in ("advection", "transport"):
             final[vname] = last[-1]
             # transfer: delta m x formula = change of solution totals
             d = last[-1]
